@@ -2,7 +2,11 @@ package regex
 
 import (
 	stdErrors "errors"
+	"fmt"
 	"regexp"
+	"regexp/syntax"
+	"unicode"
+	"unicode/utf8"
 
 	"github.com/lucasjones/reggen"
 
@@ -81,12 +85,14 @@ func (s *Schema) Example() ([]byte, error) {
 // it doesn't outlive the generation.
 func (s *Schema) generateExample() ([]byte, error) {
 	example, err := s.exampleOnce.Do(func() ([]byte, error) {
-		g, err := reggen.NewGenerator(s.pattern)
+		example, err := generate(s.pattern, s.generatorSeed)
 		if err != nil {
+			e := errors.Format(errors.ErrRegexExample, s.file.Content())
+			err := errors.NewDocumentError(s.file, e)
+			err.SetIndex(bytes.Index(0))
 			return nil, err
 		}
-		g.SetSeed(s.generatorSeed)
-		return []byte(g.Generate(1)), nil
+		return []byte(example), nil
 	})
 	if err != nil {
 		return nil, err
@@ -94,6 +100,101 @@ func (s *Schema) generateExample() ([]byte, error) {
 
 	// Return a copy, the caller is free to change it.
 	return append(make([]byte, 0, len(example)), example...), nil
+}
+
+// generate generates a string for the pattern. The generator panics on a
+// character class it cannot choose a character from (e.g. the one which matches
+// nothing), the panic is returned as an error.
+func generate(pattern string, seed int64) (example string, err error) {
+	defer func() {
+		if r := recover(); r != nil {
+			err = fmt.Errorf("generate example: %v", r)
+		}
+	}()
+
+	g, err := reggen.NewGenerator(generatorPattern(pattern))
+	if err != nil {
+		return "", err
+	}
+	g.SetSeed(seed)
+	return g.Generate(1), nil
+}
+
+// generatorPattern returns the pattern the example should be generated from.
+//
+// For a character class which reaches the last Unicode code point (e.g. negated
+// one, like [^a-z]) the generator chooses among printable ASCII characters only,
+// and fails when the class has none of them, like [^\x00-\x7f]. Every such class
+// is replaced with one of its characters. A pattern without such classes is
+// returned as is.
+func generatorPattern(pattern string) string {
+	re, err := syntax.Parse(pattern, syntax.Perl)
+	if err != nil {
+		return pattern
+	}
+	if !replaceNonASCIIClasses(re) {
+		return pattern
+	}
+	return re.String()
+}
+
+func replaceNonASCIIClasses(re *syntax.Regexp) bool {
+	replaced := false
+	if re.Op == syntax.OpCharClass && isOpenNonASCIIClass(re.Rune) {
+		if r, ok := classRune(re.Rune); ok {
+			re.Op = syntax.OpLiteral
+			re.Flags &^= syntax.FoldCase
+			re.Rune = []rune{r}
+			replaced = true
+		}
+	}
+	for _, sub := range re.Sub {
+		if replaceNonASCIIClasses(sub) {
+			replaced = true
+		}
+	}
+	return replaced
+}
+
+// isOpenNonASCIIClass reports whether the class (sorted pairs of range bounds)
+// reaches the last Unicode code point and has none of the ASCII characters the
+// generator chooses from: the printable ones, tab, line feed and carriage return.
+func isOpenNonASCIIClass(ranges []rune) bool {
+	if len(ranges) == 0 || ranges[len(ranges)-1] != unicode.MaxRune {
+		return false
+	}
+	for i := 0; i+1 < len(ranges); i += 2 {
+		lo, hi := ranges[i], ranges[i+1]
+		if lo <= '~' && hi >= ' ' {
+			return false
+		}
+		for _, r := range "\t\n\r" {
+			if lo <= r && r <= hi {
+				return false
+			}
+		}
+	}
+	return true
+}
+
+// classRune returns a character of the class (pairs of range bounds), printable
+// if the class has one.
+func classRune(ranges []rune) (rune, bool) {
+	var (
+		found    rune
+		hasFound bool
+	)
+	for i := 0; i+1 < len(ranges); i += 2 {
+		for r := ranges[i]; r <= ranges[i+1]; r++ {
+			if unicode.IsPrint(r) {
+				return r, true
+			}
+			if !hasFound && utf8.ValidRune(r) {
+				found, hasFound = r, true
+			}
+		}
+	}
+	return found, hasFound
 }
 
 func (*Schema) AddType(string, jschema.Schema) error {
